@@ -100,3 +100,220 @@ def run(ck, prog):
     e1.run(ck, prog, SPECS)
     check_ab(ck, prog)
     ck.floor("E1-guard", 27)
+
+
+# ------------------------------------------------------------------ (b) sign, (c) centred variance, (d) by-construction, (e) storage map
+EXPLANATION += (
+    " (b) E2d: DenseMatrix max/min/argmax/softmax_mut take no absolute value and start from -inf/+inf or a data element - 'all-negative data', "
+    "'softmax of any finite input is a probability vector'. (c) E2f: every product accumulated by the variance routines "
+    "(MatrixStats::var, BaseVector::var) has centred factors (element - mean), not raw elements: the one-pass E[x^2]-E[x]^2 form loses "
+    "(mean/spread)^2 * eps of relative accuracy, the statement demands accuracy at |mean|/spread = 1e8. (d) by construction: every copying "
+    "variant (8 BaseVector, 11 BaseMatrix, binarize) is `clone(); r.op_mut(args); r` in the trait default body and is not overridden by the "
+    "built-in types - this proves 'each in-place variant produces the same result as its copying counterpart' for every input. (e) storage-map "
+    "agreement: the six cell accessors of DenseMatrix index `values` by one and the same function of (row, col, nrows, ncols); all other methods "
+    "touch `values` only through these accessors, element-wise over 0..len(values), or as a whole. The value of each operation on the logical "
+    "view (index arithmetic over runtime shapes) is not decided."
+)
+TECHNIQUE = "static analysis of rustc MIR: guard/post-dominance rules, sign-sensitivity and centred-accumulation rules, structural by-construction summaries, storage-map sibling agreement"
+
+
+def sign_rules(ck, prog):
+    from sa import siblings as sb
+    from props.C20 import impl_body
+    rule = "E2d-sign"
+    for m in ("max", "min", "argmax", "softmax_mut"):
+        inst = f"DenseMatrix::{m} does not depend on the sign of the data"
+        b = impl_body(prog, "BaseMatrix", "dense", m)
+        if not b:
+            ck.violation(rule, inst, f"DenseMatrix::{m}", "", expected="impl exists", found="anchor vanished")
+            continue
+        probs = sb.sign_rule(prog, b, "softmax" if m == "softmax_mut" else m)
+        if probs:
+            ck.violation(rule, inst, b.path, f"{b.loc[0]}:{b.loc[1]}", expected="no absolute value in the reduction/shift; fold starts from -inf/+inf or a data element",
+                         found="; ".join(probs))
+        else:
+            ck.ok(rule, inst, b.path, f"{b.loc[0]}:{b.loc[1]}", "no abs; identity start value")
+    ck.floor(rule, 4)
+
+
+def centred_variance(ck, prog):
+    from sa.prov import Resolver, render, subterms
+    rule = "E2f-centred"
+    targets = [b for b in prog.bodies.values() if b.name == "var" and b.kind != "Closure" and
+               (b.trait_default in ("linalg::stats::MatrixStats", "linalg::BaseVector") or b.impl_trait in ("linalg::stats::MatrixStats", "linalg::BaseVector"))]
+    names = {b.trait_default or b.impl_trait for b in targets}
+    for need in ("linalg::stats::MatrixStats", "linalg::BaseVector"):
+        if need not in names:
+            ck.violation(rule, f"{need}::var exists", need, "", expected="anchor exists", found="anchor vanished")
+    is_elem = lambda s: s[0] == "call" and s[1].endswith(("BaseMatrix::get", "BaseVector::get")) or s[0] == "idx"
+    for b in sorted(targets, key=lambda b: b.path):
+        res = Resolver(b)
+        inst = f"{(b.trait_default or b.impl_trait).split('::')[-1]}::var accumulates centred products"
+        n = 0
+        for bb, t in b.calls():
+            f = t.get("f")
+            if not (f and f["path"] == "std::ops::AddAssign::add_assign"):
+                continue
+            v = res.operand(t["args"][1])
+            factors = None
+            if v[0] == "call" and v[1] == "std::ops::Mul::mul":
+                factors = list(v[2])
+            elif v[0] == "call" and v[1].endswith(("::powi", "::powf", "::square")):
+                factors = [v[2][0]]
+            if factors is None:
+                continue
+            n += 1
+            bad = []
+            for F in factors:
+                centred = F[0] == "call" and F[1] == "std::ops::Sub::sub" and any(is_elem(s) for s in subterms(F[2][0])) \
+                    and not is_elem(F[2][1]) and F[2][1][0] in ("phi", "call", "local")
+                if not centred:
+                    bad.append(render(F)[:60])
+            if bad:
+                ck.violation(rule, inst, b.path, b.where(bb), ordinal=n,
+                             expected="each accumulated product has factors of the form (element - mean)",
+                             found=f"accumulates a product of raw elements: {bad} (one-pass E[x^2] - E[x]^2: catastrophic cancellation for |mean| >> spread)")
+            else:
+                ck.ok(rule, inst, b.path, b.where(bb), render(v)[:100])
+        if n == 0:
+            ck.violation(rule, inst, b.path, f"{b.loc[0]}:{b.loc[1]}", expected="an accumulation of squared deviations", found="no accumulated product found")
+    ck.floor(rule, 2)
+
+
+COPYING = {"linalg::BaseVector": ["add", "sub", "mul", "div", "add_scalar", "sub_scalar", "mul_scalar", "div_scalar"],
+           "linalg::BaseMatrix": ["add", "sub", "mul", "div", "add_scalar", "sub_scalar", "mul_scalar", "div_scalar", "negative", "abs", "pow"],
+           "linalg::stats::MatrixPreprocessing": ["binarize"]}
+
+
+def by_construction(ck, prog):
+    from sa import elementwise as ew
+    rule = "E8-by-construction"
+    overriding = {}
+    for b in prog.bodies.values():
+        if b.impl_trait in ("linalg::BaseVector", "linalg::BaseMatrix") and b.kind != "Closure":
+            overriding.setdefault((b.impl_trait, b.name), []).append(b.impl_self)
+    for trait, methods in COPYING.items():
+        trait = trait.split("#")[0]
+        for m in methods:
+            inst = f"{trait.split('::')[-1]}::{m} == clone + {m}_mut"
+            b = prog.bodies.get(f"{trait}::{m}")
+            if not b:
+                ck.violation(rule, inst, f"{trait}::{m}", "", expected="trait default body exists", found="anchor vanished (no default body)")
+                continue
+            nm, prob = ew.copying(prog, b)
+            ov = [s for s in overriding.get((trait, m), []) if s and (s.startswith("std::vec::Vec") or "DenseMatrix" in s)]
+            if nm == m + "_mut" and not prob and not ov:
+                ck.ok(rule, inst, b.path, f"{b.loc[0]}:{b.loc[1]}", f"clone(self); {nm}(clone, args); return clone; not overridden by the built-in types")
+            else:
+                ck.violation(rule, inst, b.path, f"{b.loc[0]}:{b.loc[1]}", expected="the copying variant is exactly clone + the in-place sibling, not overridden",
+                             found=f"in-place callee {nm}, problem: {prob}, overridden by {ov}")
+    ck.floor(rule, 20)
+
+
+ACCESSORS = ("get", "set", "add_element_mut", "sub_element_mut", "mul_element_mut", "div_element_mut")
+
+
+def _norm_args(t):
+    """drop argument names (positions stay) so that terms of sibling methods can be compared"""
+    if not isinstance(t, tuple):
+        return t
+    if t and t[0] == "arg":
+        return ("arg", t[1])
+    return tuple(_norm_args(x) for x in t)
+
+
+def storage_map(ck, prog):
+    from sa.prov import Resolver, render, subterms, alts
+    rule = "E6-storage-map"
+    dm = [b for b in prog.bodies.values() if b.kind != "Closure" and (
+        (b.impl_self or "").startswith("linalg::naive::dense_matrix::DenseMatrix<T>") or
+        b.path.startswith("linalg::naive::dense_matrix::DenseMatrix::<T>::"))]
+    is_values = lambda t: any(s[0] == "field" and s[2] == "values" and s[1][0] == "arg" and s[1][1] == 1 for s in subterms(t))
+
+    def value_indices(b):
+        res = Resolver(b)
+        out = []
+        for bb, t in b.calls():
+            f = t.get("f")
+            if f and f["path"] in ("std::ops::Index::index", "std::ops::IndexMut::index_mut"):
+                a0, a1 = res.operand(t["args"][0]), res.operand(t["args"][1])
+                base = a0
+                while base[0] == "phi":
+                    base = base[2][0]
+                if base[0] == "field" and base[2] == "values" and base[1][0] == "arg":
+                    out.append((bb, base[1][1], a1))
+        return out
+    maps = {}
+    for m in ACCESSORS:
+        bs = [b for b in dm if b.name == m and b.impl_trait == "linalg::BaseMatrix"]
+        inst = f"DenseMatrix::{m} addresses cell (row, col) through the common storage map"
+        if len(bs) != 1:
+            ck.violation(rule, inst, f"DenseMatrix::{m}", "", expected="accessor exists", found=f"{len(bs)} bodies")
+            continue
+        idx = value_indices(bs[0])
+        if len(idx) != 1:
+            ck.violation(rule, inst, bs[0].path, f"{bs[0].loc[0]}:{bs[0].loc[1]}", expected="exactly one indexed access of self.values", found=f"{len(idx)}")
+            continue
+        maps[m] = (bs[0], idx[0])
+    if len(maps) == len(ACCESSORS):
+        ref = _norm_args(maps["get"][1][2])
+        for m, (b, (bb, _, term)) in maps.items():
+            inst = f"DenseMatrix::{m} addresses cell (row, col) through the common storage map"
+            uses_rc = {s[1] for s in subterms(term) if s[0] == "arg"} >= {2, 3}
+            if _norm_args(term) == ref and uses_rc:
+                ck.ok(rule, inst, b.path, b.where(bb), f"values[{render(term)}]")
+            else:
+                ck.violation(rule, inst, b.path, b.where(bb), expected=f"the same index function as get: values[{render(maps['get'][1][2])}]",
+                             found=f"values[{render(term)}]")
+    # every other method: element-wise over the whole buffer, or whole-buffer use
+    n = 0
+    for b in sorted(dm, key=lambda b: b.path):
+        if b.name in ACCESSORS and b.impl_trait == "linalg::BaseMatrix":
+            continue
+        for (bb, who, term) in value_indices(b):
+            n += 1
+            inst = f"DenseMatrix::{b.name} indexes values only element-wise"
+            ok = False
+            if term[0] == "agg" and term[1].endswith(("RangeFull::RangeFull", "RangeFull")):
+                ok = True
+            it = term
+            if it[0] == "field" and it[2] == "0" and it[1][0] == "variant" and it[1][2] == "Some" and it[1][1][0] == "call" \
+                    and it[1][1][1].endswith("Iterator::next"):
+                rng = [a for a in alts(it[1][1][2][0]) if a[0] == "agg" and a[1].endswith("Range::Range")]
+                if rng and rng[0][2][0] == ("int", 0):
+                    hi = rng[0][2][1]
+                    d = dim_of(hi)
+                    whole = (d and d[0] == "len" and any(s[0] == "field" and s[2] == "values" for s in subterms(hi))) or \
+                        Prod(Dim("rows", 1), Dim("cols", 1))(hi)
+                    ok = bool(whole)
+            if ok:
+                ck.ok(rule, inst, b.path, b.where(bb), f"values[{render(term)[:60]}]")
+            else:
+                ck.violation(rule, inst, b.path, b.where(bb), ordinal=n,
+                             expected="cells are addressed through get/set/..._element_mut; values[] is only walked over 0..len or used as a whole",
+                             found=f"own index arithmetic on the buffer: values[{render(term)[:80]}]")
+    # the raw buffer must not leave the type as a 'flattened' sequence
+    for b in sorted(dm, key=lambda b: b.path):
+        if not b.local_ty(0).startswith("std::vec::Vec<T"):
+            continue
+        res = Resolver(b)
+        ret = res.local(0)
+        esc = any(a[0] == "field" and a[2] == "values" and a[1][0] == "arg" for a in alts(ret))
+        inst = f"DenseMatrix::{b.name} does not hand out the storage buffer as a flattened view"
+        if esc and b.name not in ("unique",):
+            ck.violation(rule, inst, b.path, f"{b.loc[0]}:{b.loc[1]}", expected="a Vec built in logical (row-major) order through the accessors",
+                         found="returns self.values (storage order) as the result")
+        elif b.name in ("to_row_vector", "get_row_as_vec", "get_col_as_vec", "unique", "column_mean", "argmax"):
+            ck.ok(rule, inst, b.path, f"{b.loc[0]}:{b.loc[1]}", "")
+    ck.floor(rule, 20)
+
+
+_run_e1_c03 = run
+
+
+def run(ck, prog):
+    _run_e1_c03(ck, prog)
+    sign_rules(ck, prog)
+    centred_variance(ck, prog)
+    by_construction(ck, prog)
+    storage_map(ck, prog)
